@@ -27,6 +27,7 @@ type mgen struct {
 	extraFns bool // stddev/stdvar (text tie only)
 	ms       bool // millisecond durations
 	simple   bool // small label/value universe for the semantic search
+	streams  []semStream
 }
 
 func genGrouping(r *h.Rng, g mgen) string {
@@ -74,9 +75,21 @@ func genPos(r *h.Rng) int {
 	return 3
 }
 
-func genSelector(r *h.Rng, g mgen) string {
+// trivialOnly: only stages the metrics_15s shortcut admits (label filters, |= "" and |~ "")
+func genSelector(r *h.Rng, g mgen, trivialOnly bool) string {
 	if g.simple {
-		return genSimpleLogQuery(r)
+		return genSemSelector(r, g.streams, trivialOnly)
+	}
+	if trivialOnly {
+		s := genLogQuery(r, 3, 0)
+		for i, m := 0, r.Intn(3); i < m; i++ {
+			if r.Chance(50) {
+				s += " | " + genLabelCond(r, 1)
+			} else {
+				s += " " + h.Pick(r, []string{"|=", "|~", "!=", "!~"}) + ` ""`
+			}
+		}
+		return s
 	}
 	return genLogQuery(r, 3, 3)
 }
@@ -96,7 +109,7 @@ func genRange(r *h.Rng, g mgen) string {
 	if !unwrap && r.Chance(70) {
 		pos = 0 // grouping on a plain range aggregation parses but is ignored by the planner: keep it rarer
 	}
-	sel := genSelector(r, g)
+	sel := genSelector(r, g, !unwrap && (fn == "rate" || fn == "count_over_time") && r.Chance(60))
 	if unwrap {
 		lbl := h.Pick(r, []string{"x", "a", "app", "level", "_entry", "z9"})
 		if g.simple {
@@ -348,7 +361,3 @@ func scriptDuration(s *logql_parser.LogQLScript) int64 {
 	return d.Nanoseconds()
 }
 
-// genSimpleLogQuery: selectors over a small universe (used by the semantic search)
-func genSimpleLogQuery(r *h.Rng) string {
-	return genLogQuery(r, 2, 2)
-}
